@@ -7,7 +7,8 @@ CONSTANTS
   Variant = "intended"
   MaxPert = 2
   Rounds = 24
-  OwnConds <- BBoth
+  OwnConds <- OCTwo
+  GenSels <- BNo
   ScaleRevs <- BBoth
 INVARIANTS Emit
 CHECK_DEADLOCK FALSE
